@@ -92,9 +92,25 @@ type Context struct {
 	nextCharArg string
 	nextArg     string
 
+	// ErrorOnExit makes ParseArguments return an *ExitError where the
+	// command line tool would print something and terminate the process
+	// (--version, --help, …). It must be set when the arguments come from a
+	// network peer: a client must not be able to terminate a daemon.
+	ErrorOnExit bool
+
 	// output
 	Options       *Options
 	RemainingArgs []string
+}
+
+// ExitError is returned by ParseArguments instead of exiting the process when
+// Context.ErrorOnExit is set.
+type ExitError struct {
+	Code int
+}
+
+func (e *ExitError) Error() string {
+	return fmt.Sprintf("option requests program exit (status %d), which is not possible in this context", e.Code)
 }
 
 func (pc *Context) findOption(longName, shortName string) *poptOption {
